@@ -19,6 +19,22 @@ IPFIX_PARSE = "variable_versions::ipfix::IPFixParser::parse"
 VERSION_PARSERS = {5: V5_PARSE, 7: V7_PARSE, 9: V9_PARSE, 10: IPFIX_PARSE}
 
 
+COPY_CALLS = ("std::slice::<impl [T]>::to_vec", "alloc::slice::<impl [T]>::to_vec", "std::borrow::ToOwned::to_owned",
+              "<std::vec::Vec<T> as std::convert::From<&[T]>>::from", "<std::vec::Vec<T> as std::convert::From<&[T; N]>>::from")
+
+
+def is_copy_of_slice(e):
+    """e = to_vec(x) / Vec::from(x) / x.to_owned() / x.into() for a byte slice -> x, else None."""
+    e = peel(e)
+    if e[0] == "call" and e[2] is not None and e[3]:
+        c = e[2]
+        if c.npath in COPY_CALLS or c.nsyn in COPY_CALLS:
+            return e[3][0]
+        if c.nsyn in ("std::convert::From::from", "std::convert::Into::into") and c.resolved and "std::vec::Vec<" in c.id and "From<&" in c.id:
+            return e[3][0]
+    return None
+
+
 def canon(e):
     return show(e, 0, 80)
 
@@ -35,6 +51,16 @@ class An:
 
     def simp(self, e):
         return self.interp.simplify(e)
+
+    def expand(self, e):
+        """simplify + inline small private helpers (robust to extract/inline refactorings)."""
+        return self.interp.inline(self.interp.simplify(e))
+
+    def opx(self, body, operand):
+        return self.expand(self.slicer(body).operand(operand))
+
+    def localx(self, body, l):
+        return self.expand(self.slicer(body).local(l))
 
     def op(self, body, operand):
         return self.simp(self.slicer(body).operand(operand))
